@@ -860,3 +860,18 @@ M('k11d-float-of-the-stripped-text', ['C11', 'C09'], IN, "        value = float(
 M('k13-unsupported-form-reported-first', ['C10', 'C13', 'C01'], S, "        if form_name not in self._form_map:\n            raise NotImplementedError(f'Form {form_name} is not supported.')\n",
   "        known = form_name in self._form_map\n        if not known:\n            raise NotImplementedError(f'Form {form_name} is not supported.')\n", None,
   'the membership test of the catalogue kept in a local', expect='silent')
+
+# ------------------------------------------------------------------ "kept in a local first" twins over the core (the shape that tripped K13, K24a and K4)
+M('tw-attempt-field-name-in-a-local', ['C01', 'C03', 'C04', 'C06', 'C12'], S, "            self._v[field.name()] = field.value(form_inputs, form_values)\n            self._field_dependencies.meet(field.name())\n",
+  "            name = field.name()\n            self._v[name] = field.value(form_inputs, form_values)\n            self._field_dependencies.meet(name)\n", None, 'the name of the line kept in a local for the store and the announcement', expect='silent')
+M('tw-prompt-answer-unpacked-later', ['C01', 'C06', 'C11', 'C13', 'C20'], S, "        value, supplied = self._prompt(missing, needed_by)\n", "        answer = self._prompt(missing, needed_by)\n        value, supplied = answer\n", None,
+  'the pair returned by the prompt unpacked in a second statement', expect='silent')
+M('tw-has-unmet-with-any', ['C01', 'C06', 'C13'], S, "        for dependency, dependents in self._unmet.items():\n            if len(dependents) > 0 and dependency not in self._met:\n                return True\n        return False\n",
+  "        return any(len(dependents) > 0 and dependency not in self._met for dependency, dependents in self._unmet.items())\n", None, 'has_unmet() written with any()', expect='silent')
+M('tw-store-spec-in-a-local-named-spec', ['C11', 'C13', 'C05', 'C01'], IN, "        i = self.input_specs[key]\n        if not self.provides(i):\n            raise MissingInput(key)\n        string = self.config.get(i.section(), i.base_name())\n        if not i.valid(string):\n            raise InvalidInput(key, string)\n        return i.value(string)\n",
+  "        spec = self.input_specs[key]\n        if not self.provides(spec):\n            raise MissingInput(key)\n        text = self.config.get(spec.section(), spec.base_name())\n        if not spec.valid(text):\n            raise InvalidInput(key, text)\n        return spec.value(text)\n", None,
+  'the locals of the input gate renamed', expect='silent')
+M('tw-cli-store-renamed', ['C13', 'C20', 'C05', 'C11'], CLI, "    input_store = inputs.InputStore(args.input_file)\n    prompt_fn = prompt_input if args.prompt_missing else None\n    s = solver.Solver(input_store, forms.available_forms[args.year], prompt=prompt_fn)\n",
+  "    store = inputs.InputStore(args.input_file)\n    prompt_fn = prompt_input if args.prompt_missing else None\n    s = solver.Solver(store, forms.available_forms[args.year], prompt=prompt_fn)\n", None,
+  'the store variable of the CLI renamed', expect='silent', more=[(CLI, "            input_store.write(args.input_file)\n", "            store.write(args.input_file)\n")])
+M('tw-meet-with-augmented-assignment', ['C01', 'C06'], S, "        self._met.append(dependency_name)\n", "        self._met += [dependency_name]\n", None, 'meet() written with +=', expect='silent')
